@@ -115,7 +115,7 @@ pub fn gen_value(ty: ColTy, r: &mut Rng) -> Sc {
             2 => Sc::Int(-(r.below(4_000_000_000) as i64)),
             3 => Sc::Int(0),
             4 => Sc::Int(4_000_000_000_000),
-            5 => Sc::Int(*r.pick(&[i64::MAX, i64::MIN, 8_210_266_876_799, 8_210_266_876_800, -8_334_601_228_800, -8_334_601_228_801])),
+            5 => Sc::Int(*r.pick(&[i64::MAX, i64::MIN, 8_210_266_876_799, 8_210_266_876_800, -8_334_600_624_000, -8_334_601_228_801])),
             6 => Sc::Str("1700000000".into()),
             7 => Sc::Float(1_700_000_000.0 + r.below(100_000) as f64),
             8 => Sc::Ts(1_700_000_000 + r.below(10_000_000) as i64),
